@@ -5,54 +5,77 @@ HERE = os.path.dirname(os.path.dirname(os.path.abspath(__file__)))
 
 
 def run_gotest(vc, scr, spec, res, prop_filter=None):
-    """Generic runner: build the test binary of spec['pkg'] with the overlay, run it as
-    child processes (one per batch) and absorb their JSON-lines output."""
+    """Generic runner: build the test binary of each part's package with the overlay, run it as
+    child processes (one per batch) and absorb their JSON-lines output.  A spec either is a
+    single part itself or lists several under spec['parts'] (same keys)."""
     tier = res.tier
-    extra_overlay = None
-    if spec.get("overlay_hook"):
-        extra_overlay = spec["overlay_hook"](vc, scr)
-    binpath = vc.build_test(scr, spec["pkg"], race=spec.get("race", False), extra_overlay=extra_overlay)
-    n = spec.get("children", {}).get(tier, 1)
-    cases = spec.get("cases", {}).get(tier, 100)
-    timeout = spec.get("timeout", {}).get(tier, 600)
+    parts = spec.get("parts") or [spec]
+    bins = {}
+    all_children = []
+    idx = 0
+    for part in parts:
+        if part.get("tiers") and tier not in part["tiers"]:
+            continue
+        pkg = part.get("pkg", spec.get("pkg"))
+        race = part.get("race", spec.get("race", False))
+        hook = part.get("overlay_hook", spec.get("overlay_hook"))
+        bkey = (pkg, race, id(hook))
+        if bkey not in bins:
+            extra_overlay = hook(vc, scr) if hook else None
+            bins[bkey] = vc.build_test(scr, pkg, race=race, extra_overlay=extra_overlay,
+                                       name=(part.get("name") or pkg.strip("./").replace("/", "_") or "main"))
+        binpath = bins[bkey]
+        n = part.get("children", {}).get(tier, 1)
+        cases = part.get("cases", {}).get(tier, 100)
+        timeout = part.get("timeout", spec.get("timeout", {})).get(tier, 600)
+        for k in range(n):
+            wd = scr.path("child%d" % idx)
+            os.makedirs(wd, exist_ok=True)
+            env = vc.goenv({
+                "VERIF_SEED": str(res.seed * 1000003 + k),
+                "VERIF_TIER": tier,
+                "VERIF_CASES": str(cases),
+                "VERIF_OUT": os.path.join(wd, "out.jsonl"),
+                "VERIF_DIR": wd,
+                "VERIF_CHILD": str(k),
+                "VERIF_PROP": res.prop,
+                "TMPDIR": wd,
+                "GORACE": "halt_on_error=0 log_path=%s" % os.path.join(wd, "race"),
+            })
+            env.update(spec.get("env", {}))
+            env.update(part.get("env", {}))
+            if callable(part.get("child_env")):
+                env.update(part["child_env"](k, n))
+            argv = [binpath, "-test.run", part["test"], "-test.timeout", "%ds" % (timeout + 30), "-test.v"]
+            argv += part.get("args", [])
+            c = vc.Child(argv, env, os.path.join(wd, "out.jsonl"), os.path.join(wd, "log.txt"), wd, timeout + 60)
+            c.part = part
+            c.k = k
+            all_children.append(c)
+            idx += 1
     parallel = min(spec.get("parallel", vc.NCPU), vc.NCPU)
-    children = []
-    for k in range(n):
-        wd = scr.path("child%d" % k)
-        os.makedirs(wd, exist_ok=True)
-        env = vc.goenv({
-            "VERIF_SEED": str(res.seed * 1000003 + k),
-            "VERIF_TIER": tier,
-            "VERIF_CASES": str(cases),
-            "VERIF_OUT": os.path.join(wd, "out.jsonl"),
-            "VERIF_DIR": wd,
-            "VERIF_CHILD": str(k),
-            "VERIF_PROP": res.prop,
-            "TMPDIR": wd,
-            "GORACE": "halt_on_error=0 log_path=%s" % os.path.join(wd, "race"),
-        })
-        env.update(spec.get("env", {}))
-        argv = [binpath, "-test.run", spec["test"], "-test.timeout", "%ds" % (timeout + 30), "-test.v"]
-        argv += spec.get("args", [])
-        children.append(vc.Child(argv, env, os.path.join(wd, "out.jsonl"), os.path.join(wd, "log.txt"), wd, timeout + 60))
-    vc.run_children(children, parallel)
-    for c in children:
+    vc.run_children(all_children, parallel)
+    for c in all_children:
+        part = c.part
         recs = vc.read_jsonl(c.outfile)
         res.absorb(recs, prop_filter=prop_filter or res.prop)
         has_summary = any(r.get("t") == "summary" for r in recs)
         if c.rc == 124 or c.rc == 137:
-            res.inconclusive.append({"why": "watchdog fired for child %s after %.0fs (see log tail): %s" % (
-                c.wd, c.wall, tail(c.logfile, 400))})
+            res.inconclusive.append({"why": "watchdog fired for %s child %d after %.0fs: %s" % (
+                part["test"], c.k, c.wall, tail(c.logfile, 400))})
         elif not has_summary:
             # the child died without a summary: a process-fatal event. Attribute it.
-            handler = spec.get("on_fatal")
+            handler = part.get("on_fatal", spec.get("on_fatal"))
             if handler:
                 handler(vc, spec, res, c, recs)
             else:
-                res.broken.append({"why": "child exited rc=%s without summary: %s" % (c.rc, tail(c.logfile, 1500))})
-        if spec.get("post_child"):
-            spec["post_child"](vc, spec, res, c, recs)
-    return children
+                res.broken.append({"why": "%s child %d exited rc=%s without summary: %s" % (part["test"], c.k, c.rc, tail(c.logfile, 1500))})
+        pc = part.get("post_child", spec.get("post_child"))
+        if pc:
+            pc(vc, spec, res, c, recs)
+    if spec.get("post_run"):
+        spec["post_run"](vc, scr, spec, res, all_children)
+    return all_children
 
 
 def tail(path, n):
@@ -130,3 +153,67 @@ irc_engine("C13", "privileged effects need the privilege", ENGINE_RULE,
            cases={"quick": 250, "thorough": 5000}, children={"quick": 16, "thorough": 16})
 irc_engine("C14", "IRC state consistency", ENGINE_RULE,
            cases={"quick": 250, "thorough": 5000}, children={"quick": 16, "thorough": 16})
+
+
+def c01_child_env(k, n):
+    # second half of the children re-runs the seeds of the first half in a process with a different GOMAXPROCS
+    return {"VERIF_SEED_OVERRIDE": "", "GOMAXPROCS": "1" if k % 2 else "8"}
+
+
+def c01_post_run(vc, scr, spec, res, children):
+    """Cross-process comparison: children 2j and 2j+1 ran the same seeds; their digests must agree."""
+    by_pair = {}
+    for c in children:
+        if c.part.get("test") != "^TestVerifC01$":
+            continue
+        p = os.path.join(c.wd, "digests.json")
+        if os.path.exists(p):
+            by_pair.setdefault(c.k // 2, []).append(json.load(open(p)))
+    compared = 0
+    for pair, ds in by_pair.items():
+        if len(ds) != 2:
+            continue
+        for seed, dg in ds[0].items():
+            if seed in ds[1]:
+                compared += 1
+                if ds[1][seed] != dg:
+                    res.violations.append({"t": "violation", "prop": "C01", "key": "diverge:cross-process",
+                                           "what": "history seed %s: output/state digest differs between two processes (GOMAXPROCS 8 vs 1): %s vs %s" % (seed, dg, ds[1][seed]),
+                                           "witness": {"gen": {"Seed": int(seed)}}})
+    res.obs["cross_process_histories_compared"] = compared
+
+
+def c01_seed_env(k, n):
+    return {"GOMAXPROCS": "1" if k % 2 else "8", "VERIF_SEED_PAIR": str(k // 2)}
+
+
+register("C01", title="replica determinism", engine="irc-history-engine",
+         pkg="./internal/ircserver",
+         parts=[{"test": "^TestVerifC01$", "children": {"quick": 16, "thorough": 16}, "cases": {"quick": 60, "thorough": 1500},
+                 "child_env": c01_seed_env}],
+         post_run=c01_post_run, timeout={"quick": 300, "thorough": 1800}, level="exploration",
+         rule="each seeded history is applied to K fresh IRCServer instances in one process (K=4 quick, 8 thorough; Go randomises map iteration "
+              "per range statement) and again in a second process with a different GOMAXPROCS; per entry the (id, text, sorted recipients) lists "
+              "must be equal, at the end the canonical state. evaluations = entries compared; non-trivial = entry with >=2 replies or a reply "
+              "with >=2 recipients, distinct by (command, role, #replies, max #recipients)",
+         floor={"quick": 5000, "thorough": 100000},
+         technique="differential replay of generated histories on K instances and 2 processes",
+         level_text="divergence between executions of the same history is observed directly; a dependence on map order over n>=2 elements shows with probability >= 1-2^-(K-1) per occurrence")
+irc_engine("C15", "one well-formed line", ENGINE_RULE, cases={"quick": 250, "thorough": 5000}, children={"quick": 16, "thorough": 16})
+register("C03", title="serialization is complete", engine="irc-history-engine", pkg="./internal/ircserver",
+         parts=[{"test": "^TestVerifC03$", "children": {"quick": 16, "thorough": 16}, "cases": {"quick": 12, "thorough": 250}}],
+         timeout={"quick": 300, "thorough": 1800}, level="exploration",
+         rule="at several cut points of each seeded history the instance is serialized and loaded into a fresh one; (1) reflection walk over every field "
+              "of IRCServer incl. unexported ones, (2) exported accessors, (3) the rest of the history plus a probe suite applied to both, replies and final "
+              "state compared. evaluations = continuation entries compared + cuts; distinct = (roles present at the cut, continuation length bucket)",
+         floor={"quick": 2000, "thorough": 50000},
+         technique="differential: instance vs. Unmarshal(Marshal(instance)), structure walk + behavioural continuation")
+register("C17", title="session lifecycle", engine="irc-history-engine", pkg="./internal/ircserver",
+         parts=[{"test": "^TestVerifC17$", "children": {"quick": 8, "thorough": 16}, "cases": {"quick": 30, "thorough": 400}},
+                {"test": "^TestVerifIRC$", "children": {"quick": 8, "thorough": 16}, "cases": {"quick": 150, "thorough": 3000}}],
+         timeout={"quick": 300, "thorough": 1800}, level="exploration",
+         rule="(a) after every prefix of every seeded history GetSession is asked for every past/present/future session id and neighbours; "
+              "(b) expiry sweep over sessions with last activity on both sides of the threshold (ages within 60s of it not asserted); "
+              "(c) after-the-end monitor on the shared engine. evaluations = lookups + sweep assertions + entries",
+         floor={"quick": 5000, "thorough": 100000},
+         technique="state-machine monitors: lookup oracle per applied prefix, sweep oracle, after-end invariants")
